@@ -23,6 +23,11 @@ def as_lazy(v):
         return v
     if isinstance(v, IterModel):
         return LazyIter(v.items, v.pos)
+    if isinstance(v, Adt) and v.ty.endswith('::Range'):
+        lo, hi = v.fields[0], v.fields[1]
+        if lo.conc and hi.conc:
+            return LazyIter([Int(i, lo.w, lo.s) for i in range(lo.v, hi.v)])
+        raise Inconclusive('symbolic range iteration')
     raise Inconclusive('not an iterator model: %r' % (v,))
 
 
@@ -214,6 +219,50 @@ def m_find_map(it, a, ty, callee):
             return r
 
 
+def m_find(it, a, ty, callee):
+    p = a[0]
+    li = as_lazy(it.load(p) if isinstance(p, Ptr) else p)
+    while True:
+        li, x = pull(it, li)
+        if x is None and li.pos >= len(li.items):
+            if isinstance(p, Ptr):
+                it.store(p, li)
+            return opt_none()
+        if x is None:
+            continue
+        if it.branch(it.call_value(a[1], [Ptr(Cell('it', x))], None)):
+            if isinstance(p, Ptr):
+                it.store(p, li)
+            return opt_some(x)
+
+
+def m_nth(it, a, ty, callee):
+    p, n = a
+    if not n.conc:
+        raise Inconclusive('nth(symbolic)')
+    li = as_lazy(it.load(p) if isinstance(p, Ptr) else p)
+    x = None
+    for _ in range(n.v + 1):
+        while True:
+            li, x = pull(it, li)
+            if x is not None or li.pos >= len(li.items):
+                break
+        if x is None:
+            break
+    if isinstance(p, Ptr):
+        it.store(p, li)
+    return opt_none() if x is None else opt_some(x)
+
+
+def m_take_while(it, a, ty, callee):
+    out = []
+    for x in drain(it, as_lazy(a[0])):
+        if not it.branch(it.call_value(a[1], [Ptr(Cell('it', x))], None)):
+            break
+        out.append(x)
+    return LazyIter(out)
+
+
 def m_for_each(it, a, ty, callee):
     for x in drain(it, as_lazy(a[0])):
         it.call_value(a[1], [x], None)
@@ -227,7 +276,10 @@ def m_min_max(which):
             return opt_none()
         best = xs[0]
         for x in xs[1:]:
-            o = it.call('<%s as std::cmp::Ord>::cmp' % _elem_ty(callee), [_ref(best), _ref(x)], None)
+            ety = _elem_ty(callee)
+            if ety == 'unknown':
+                ety = it.runtime_type(best) or 'unknown'
+            o = it.call('<%s as std::cmp::Ord>::cmp' % ety, [_ref(best), _ref(x)], None)
             # Iterator::min returns the first minimum, max the last maximum
             if which == 'min' and o.variant == 2:
                 best = x
@@ -644,6 +696,9 @@ def install(it):
     A(r'<.* as std::iter::Iterator>::any::<.*>', m_any_all('any'))
     A(r'<.* as std::iter::Iterator>::all::<.*>', m_any_all('all'))
     A(r'<.* as std::iter::Iterator>::find_map::<.*>', m_find_map)
+    A(r'<.* as std::iter::Iterator>::find::<.*>', m_find)
+    A(r'<.* as std::iter::Iterator>::nth', m_nth)
+    A(r'<.* as std::iter::Iterator>::take_while::<.*>', m_take_while)
     A(r'<.* as std::iter::Iterator>::for_each::<.*>', m_for_each)
     A(r'<.* as std::iter::Iterator>::min', m_min_max('min'))
     A(r'<.* as std::iter::Iterator>::max', m_min_max('max'))
